@@ -40,6 +40,10 @@ func (s *segmentTimelineGenerator) addSegmentData(log *slog.Logger, item recSegD
 	trName := item.name
 	if _, ok := s.segDataBuffers[trName]; !ok {
 		s.segDataBuffers[trName] = newSegDataBuffer(s.windowSize)
+		if s._started {
+			// A track delivering its first segment after the start must be waited for as well.
+			s._nrTracks = uint32(len(s.segDataBuffers))
+		}
 	}
 	err = s.segDataBuffers[trName].add(item)
 	if err != nil {
